@@ -14,7 +14,7 @@ var c12Gen = TreeGen{MaxDepth: 3, MaxWidth: 4, MinWidth: 1, NilLeaves: 10, Conds
 
 func c12Tier(tier string) int {
 	if tier == "thorough" {
-		return 600000
+		return 3000000
 	}
 	return 60000
 }
